@@ -152,7 +152,22 @@ def r4_expiry_each_tick(cx):
                                 cmp_ok = True
             if cmp_ok:
                 sweep = li
-    cx.check("expiry-sweep", sweep is not None and not sweep.other_exits, site_of(hk), "housekeep compares every peer's expiry with now (complete sweep)")
+    ok_sweep = sweep is not None and not sweep.other_exits
+    if not ok_sweep:
+        # internal iteration: self.peers.iter().filter(|(_, data)| data.timeout < now).map(..).collect()
+        from ..mirutil import adapter_closures
+        for (cb, adapter, src, short, complete) in adapter_closures(prog, hk):
+            if adapter not in ("filter", "filter_map") or short or not complete:
+                continue
+            if src is None or not place_is_field(src, "GenericCloud", "peers"):
+                continue
+            for bi, si, s in cb.stmts():
+                if s["k"] == "assign" and s["rv"]["k"] == "binop" and s["rv"]["op"] in ("Lt", "Le", "Gt", "Ge"):
+                    for o in (s["rv"]["a"], s["rv"]["b"]):
+                        p = op_place(o)
+                        if p is not None and place_is_field(root_place(cb, p), "PeerData", "timeout"):
+                            ok_sweep = True
+    cx.check("expiry-sweep", ok_sweep, site_of(hk), "housekeep compares every peer's expiry with now (complete sweep)")
     rem = [(b, bi, t) for (b, bi, t) in peer_remove_sites(prog) if b.did == hk.did]
     cx.exact("timeout-removal", len(rem), 1, "peers.remove in housekeep")
     cs = A.cloud_fn(prog, "connect_sock")
